@@ -920,7 +920,7 @@ class Oracle:
                 val = pair.B._context[self._sym(v)]
                 if isinstance(val, np.ndarray):
                     return "torch:history:object-array-operand", m
-        if self.backend == "torch" and any(
+        if self.backend == "torch" and ("^" in ops_of(m) or "nested" in ks) and any(
                 (not evars(k) and depth(k) >= 1)
                 or representation(pair.raw(pair.A, G.text(k), False)) != representation(pair.raw(pair.B, G.text(k), True))
                 for k in kids(m)):
@@ -1537,6 +1537,28 @@ def run_backend(ctx, G, drv, backend, quick):
             if backend == "numpy" and drv:
                 model_case(ctx, G, drv, orc.pair, e, binds)
         ctx.bump(f"{backend}:overflowing-literals")
+
+    # 9. comparisons (and Match, never compiled) of number-valued variables against arithmetic sub-expressions of
+    #    number-valued variables, both operand orders: on torch the interpreter's + - * on two plain numbers give
+    #    a 0-d tensor where generated code keeps a Python number, so the comparison primitives see different
+    #    representations on the two paths; first evaluated with list bindings, then rebound to numbers
+    cmps = [op for op in G._cmp] + ["~"]
+    ariths = [op for op in ("+", "-", "*") if op in G.bin]
+    va, vb, vc = ("v", "a"), ("v", "b"), ("v", "c")
+    fam = []
+    for cop in cmps:
+        for aop in ariths:
+            fam += [("b", cop, vc, ("b", aop, va, vb)), ("b", cop, ("b", aop, va, vb), vc),
+                    ("b", cop, va, ("b", aop, vb, ("l", 2))), ("b", cop, ("l", 6), ("b", aop, va, vb))]
+        fam += [("b", cop, ("b", "+", va, vb), ("b", "*", va, vb)), ("b", cop, ("n", G.neg, va), ("b", "-", vb, vc))]
+    for vals in ([[1, 2, 3], [4, 5, 6], [5, 7, 9]], (2, 3, 5), (6, 3, 2), (1.5, 2.5, 4.0), (3, 1.5, 4.5), (0, 0, 0)):
+        binds = [(n, v, "text") for n, v in zip("abc", vals)]
+        rebind_all(binds)
+        step += 1
+        for e in fam:
+            for pos in POSITIONS + ["named"]:
+                orc.check(e, pos, binds, step)
+        ctx.bump(f"{backend}:scalar-comparisons")
 
     # 4. literal-kind twins: two expressions of the same shape whose literals are equal in value but not in
     #    kind (2 / 2.0, 0 / 0.0, -(1) / -(1.0)), evaluated by ONE interpreter in both orders (a fresh pair per
